@@ -33,23 +33,23 @@ EVK = ['Delegated', 'Undelegated', 'Redelegated', 'Withdrew', 'Voted', 'VotedWei
 
 
 class Names:
-    """byte strings that occur often (addresses, topics) are defined once per file"""
+    """every byte string of a case file goes into ONE pool definition (hex text decoded inside Coq by [hx]) and is
+    referred to by index: string literals inside record terms elaborate ~50x slower than in a flat list"""
 
     def __init__(self):
         self.m = {}
 
     def b(self, hexstr):
-        raw = bytes.fromhex(hexstr)
-        if len(raw) == 0:
+        hexstr = hexstr.lower()
+        if len(hexstr) == 0:
             return '[]'
-        if len(raw) not in (20, 32) and len(raw) < 40:
-            return '(hx "%s")' % hexstr.lower()
         if hexstr not in self.m:
-            self.m[hexstr] = 'b%d' % len(self.m)
-        return self.m[hexstr]
+            self.m[hexstr] = len(self.m)
+        return '(pb %d)' % self.m[hexstr]
 
     def defs(self):
-        return ''.join('Definition %s : bytes := hx "%s".\n' % (n, h.lower()) for h, n in self.m.items())
+        return ('Definition pool : list bytes := map hx [%s].\nDefinition pb (i : nat) : bytes := nth i pool [].\n'
+                % ';'.join('"%s"%%string' % h for h in self.m))
 
 
 def nat(n):
